@@ -85,7 +85,10 @@ fn go<T: Scalar, const D: usize>(h: &C17, out: &mut Outcome<T>) {
         let psh = crate::oracle::shifts(&pg, pr.tree, &pr.sig, &pkin.pin, &pkin.offsets);
         let ped = || -> Vec<(Option<T>, Vector<T, D>)> { (0..pg.ne()).map(|e| (pkin.masses[e], Vector::from_array(std::array::from_fn(|d| psh[e][d])))).collect() };
         // fixed rational point: no new branch decisions
-        let px: Vec<T> = (0..pdim).map(|k| T::rat(31 + (k * 7919 % 89) as i64, 181)).collect();
+        // (the Gamma coordinate is the same as in the calls below: a value cached per coordinate instead of per
+        // (dod, coordinate) is then handed from one sampler to the other)
+        let lam = 2 * g.ne() - 2;
+        let px: Vec<T> = (0..pdim).map(|k| if k == lam && k < x.len() { x[k] } else { T::rat(31 + (k * 7919 % 89) as i64, 181) }).collect();
         let obs = Obs::<T> { events: RefCell::new(vec![]) };
         let _ = ps.generate_sample_from_x_space_point(&px, ped(), &plain, &obs);
         let mut prng = HarnessRng::<T> { k: 0, concrete: true, _p: std::marker::PhantomData };
